@@ -6,5 +6,7 @@ CONSTANTS
   MaxConns = 5
   MaxT6 = 1
   MaxPk = 5
+  RRs = {"cpr0"}
+  ScopeSensitive = FALSE
   Faults = {"wfail", "dialfail"}
 INVARIANTS NoDup Conservation HeldAreInitials BatchOrdered CompleteAtEnd NameRoutes OneTransport Emit
